@@ -650,6 +650,10 @@ class Interp:
                 except (IndexError, KeyError, TypeError, ValueError) as e:
                     raise PathRaise(type(e).__name__, t)
                 return
+            si = getattr(obj, 'pqv_setitem', None)
+            if si is not None:
+                si(idx, v)
+                return
             if isinstance(obj, (dict, list)) and not _contains_top(idx) and not isinstance(idx, slice):
                 try:
                     obj[idx] = v
@@ -919,11 +923,14 @@ class Interp:
         if a is TOP or b is TOP:
             return TOP
         pc = getattr(a, 'pqv_compare', None)
+        pc2 = getattr(b, 'pqv_compare', None)
         if pc is not None:
-            return pc(op, b, False)
-        pc = getattr(b, 'pqv_compare', None)
-        if pc is not None:
-            return pc(op, a, True)
+            r = pc(op, b, False)
+            if r is TOP and pc2 is not None:
+                r = pc2(op, a, True)
+            return r
+        if pc2 is not None:
+            return pc2(op, a, True)
         if _contains_top(a) or _contains_top(b):
             return TOP
         try:
